@@ -377,11 +377,17 @@ class Interp:
                     if i == len(e.values) - 1:
                         res.append((val, s2))
                         continue
-                    for t, s3 in self.truth_fork(val, s2, v):
-                        if t == is_and:
-                            nxt.append((val, s3))
-                        else:
-                            res.append((val, s3))
+                    # a value that is one of several alternatives short-circuits per alternative, and the operand returned is that alternative
+                    alts = val.alts if isinstance(val, OneOf) else (val,)
+                    for j, a in enumerate(alts):
+                        s_a = s2 if j == len(alts) - 1 else s2.fork()
+                        if isinstance(val, OneOf):
+                            self.refine(s_a, v, a)
+                        for t, s3 in self.truth_fork(a, s_a, None if isinstance(val, OneOf) else v):
+                            if t == is_and:
+                                nxt.append((a, s3))
+                            else:
+                                res.append((a, s3))
             pending = nxt
         return res
 
